@@ -535,7 +535,11 @@ def velocity(vclass, u, vmin, cb, vJ):
     elif vclass == "cb+":
         vw = cb + 10.0 ** (-6.0 + 3.0 * u)
     elif vclass == "hyb":
-        vw = cb + u * (vJ - cb) if vJ > cb else vJ - 1e-3 * u
+        # u = 1 gives vJ exactly (EOM evaluates the pressure there).  u -> 0 would give c_b: for
+        # |vw/c_b - 1| < ~1e-8 HydrodynamicsTemplateModel.findMatching does not return when c_s and c_b
+        # differ by one ulp (solve_ivp with atol = 0 takes ever smaller steps; reported separately), so the
+        # class starts 1e-5 (vJ - c_b) above c_b; the classes cb- / cb+ cover c_b -+ 1e-6 .. 1e-3.
+        vw = cb + max(u, 1e-5) * (vJ - cb) if vJ > cb else vJ - 1e-3 * u
     elif vclass == "vJ-":
         vw = vJ - 10.0 ** (-6.0 + 4.0 * u)
     elif vclass == "vJ+":
